@@ -60,8 +60,11 @@ Fixpoint evict (fuel : nat) (size : nat) (now dur : Z) (es : list entry) : optio
        end.
 
 (* third critical section of lookup *)
+(* since the repair of F94 a cache without room (size 0; the harness also maps negative sizes
+   there) stores nothing: the fresh entry is handed back uncached *)
 Definition insert_section (size : nat) (dur now : Z) (h a : bytes) (es : list entry)
   : option (list entry) :=
+  if Nat.eqb size 0 then Some es else
   match evict (S (length es)) size now dur es with
   | Some es' => Some (set_entry {| e_host := h; e_addrs := a; e_exp := now + dur |} es')
   | None => None
